@@ -33,7 +33,7 @@ C04_OPS = ["load_aligned", "load_unaligned", "store_aligned", "store_unaligned",
 C06_OPS = [o for o in entries.OPS if o.startswith("batch_cast_to_") or o.startswith("bitwise_cast_to_")] + ["to_int", "to_float"]
 
 C05_OPS = [o for o in entries.OPS if o.split("_")[0] in ("zip", "swizzle", "compress", "expand", "extract", "insert", "slide", "rotate")]
-C05_QUICK = ["zip_lo", "zip_hi", "swizzle_dyn", "compress", "expand", "extract_pair", "insert_0", "insert_3", "slide_left_1", "slide_left_4", "slide_right_1",
+C05_QUICK = ["zip_lo", "zip_hi", "swizzle_dyn", "compress", "expand", "extract_pair", "insert_0", "insert_3", "slide_left_1", "slide_left_3", "slide_left_4", "slide_right_1", "slide_right_7",
              "slide_right_8", "rotate_left_1", "rotate_left_3", "rotate_right_1"]
 
 C09_OPS = ["reduce_add", "reduce_max", "reduce_min"]
@@ -70,7 +70,8 @@ def quick_pre_filter(pid):
 
 
 def quick_post_filter(pid):
-    """quick tier: a function is proved for architecture A if it is defined in A's own header, or has code of A's own header inlined
+    """quick tier: (generic kernels instantiated for none of the base architectures are proved on the first architecture that uses them)
+    quick tier: a function is proved for architecture A if it is defined in A's own header, or has code of A's own header inlined
     into it (architecture-specific detail helpers), or A is one of the base architectures for the architecture-independent layers"""
     def f(fn, job):
         if fn.aid is None:
@@ -83,7 +84,16 @@ def quick_post_filter(pid):
             return fn.aid == "sse2" or (fn.aid == "avx512bw" and fn.tid in ("i8", "f32"))   # forwarding layers: one vector-mask and one k-mask shape
         if fn.aid in QUICK_BASE:
             return True
-        return any(os.path.basename(i.get("file", "")) == own for i in job.get("inlined", []))
+        if any(os.path.basename(i.get("file", "")) == own for i in job.get("inlined", [])):
+            return True
+        # architecture-independent kernel that no base architecture instantiates (e.g. generic float ge is only used by the avx family)
+        fns = getattr(f, "fns", None)
+        if fns:
+            key = (fn.sig.qual, fn.kinds, fn.tid, os.path.basename(fn.file), fn.line)
+            peers = sorted(g.aid for g in fns.values() if g.aid and (g.sig.qual, g.kinds, g.tid, os.path.basename(g.file), g.line) == key)
+            if peers and not any(a in QUICK_BASE for a in peers):
+                return fn.aid == peers[0]
+        return False
     return f
 
 
